@@ -286,7 +286,9 @@ def random_ops(rec: Recorder, rng: random.Random, sizeB: int, nops: int, *, unit
             if wh == 0:
                 rec.seek(pick_off(), 0)
             elif wh == 1:
-                rec.seek(rng.randrange(-sizeB // 2 - 1, sizeB // 2 + 2), 1)
+                k = rng.randrange(-sizeB // 2 - 1, sizeB // 2 + 2)
+                # TLC integers are 32-bit: keep position + k representable in the trace specification
+                rec.seek(min(k, (1 << 31) - 1 - int(rec.s.tell())), 1)
             else:
                 rec.seek(-rng.choice([0, 1, 512, unit, unit + 1, rng.randrange(0, sizeB + 10)]), 2)
         elif r < 0.70:
